@@ -62,46 +62,40 @@ Proof.
     change (skipn (S n) (x :: l)) with (skipn n l). apply IH.
 Qed.
 
-(* Method.Call with at most two whoppers runs them outermost first around the inner call *)
-Lemma method_call_spec : forall cs inner, g_whop cs = true -> method_call cs inner = nest (wraps cs) inner.
+(* Continue from the whopper of combination [current]: the whoppers of the later combinations, outermost
+   first, around the inner call - however many there are *)
+Lemma continue_spec : forall fuel cs inner current, 1 <= fuel -> length cs < fuel + S current ->
+  continue_whopper fuel cs inner current = nest (wraps (skipn (S current) cs)) inner.
 Proof.
-  intros cs inner G. unfold g_whop in G. apply Nat.leb_le in G. unfold method_call, wrap_from. simpl skipn.
+  induction fuel as [| k IH]; intros cs inner current Hf Hl; [lia |]. cbn [continue_whopper]. unfold wrap_from.
+  assert (S0 := scan_spec (skipn (S current) cs) (S current)).
+  destruct (scan_wrap (skipn (S current) cs) (S current)) as [[j b] |]; [| rewrite S0; reflexivity].
+  destruct S0 as (pre & c & post & Hsk & Hpre & Hc & Hj).
+  assert (Hlen : length (skipn (S current) cs) = length pre + S (length post)) by (rewrite Hsk, app_length; reflexivity).
+  rewrite skipn_length in Hlen.
+  assert (Hpost : skipn (S j) cs = post).
+  { subst j. replace (S (S current + length pre)) with (S (length pre) + S current) by lia.
+    rewrite skipn_plus, Hsk. apply skipn_cons_exact. }
+  rewrite Hsk, wraps_app, Hpre. unfold wraps at 1. simpl filter_map. rewrite Hc. simpl nest.
+  f_equal. rewrite <- Hpost. apply IH; lia.
+Qed.
+
+(* Method.Call runs all the whoppers outermost first around the inner call *)
+Lemma method_call_spec : forall cs inner, method_call cs inner = nest (wraps cs) inner.
+Proof.
+  intros cs inner. unfold method_call, wrap_from. simpl skipn.
   assert (S0 := scan_spec cs 0). destruct (scan_wrap cs 0) as [[i b] |]; [| rewrite S0; reflexivity].
   destruct S0 as (pre & c & post & Hcs & Hpre & Hc & Hi). simpl in Hi. subst i.
-  assert (Hw : wraps cs = b :: wraps post).
-  { subst cs. rewrite wraps_app, Hpre. unfold wraps. simpl. rewrite Hc. reflexivity. }
-  rewrite Hw. simpl nest.
-  assert (Hlen : length cs = S (length pre + length post)).
-  { subst cs. rewrite app_length. simpl. lia. }
-  rewrite Hlen. cbn [continue_whopper]. unfold wrap_from.
-  assert (Hsk : skipn (S (length pre)) cs = post).
-  { subst cs. apply skipn_cons_exact. }
-  rewrite Hsk. assert (S1 := scan_spec post (S (length pre))).
-  destruct (scan_wrap post (S (length pre))) as [[j b2] |]; [| rewrite S1; reflexivity].
-  destruct S1 as (pre2 & c2 & post2 & Hpost & Hpre2 & Hc2 & Hj).
-  assert (Hw2 : wraps post = b2 :: wraps post2).
-  { rewrite Hpost. rewrite wraps_app, Hpre2. unfold wraps. simpl. rewrite Hc2. reflexivity. }
-  rewrite Hw2 in *. simpl nest. rewrite Hw in G. simpl in G.
-  assert (Hp2 : wraps post2 = []) by (destruct (wraps post2); [reflexivity | simpl in G; lia]).
-  rewrite Hp2. simpl nest.
-  assert (Hl2 : length pre + length post = S (length pre + length pre2 + length post2)).
-  { rewrite Hpost. rewrite app_length. simpl. lia. }
-  rewrite Hl2. cbn [continue_whopper]. unfold wrap_from.
-  assert (Hsk2 : skipn (S (S j)) cs = tl post2).
-  { rewrite skipn_S_tl. f_equal. subst j.
-    replace (S (S (length pre) + length pre2)) with (S (length pre2) + S (length pre)) by lia.
-    rewrite skipn_plus. rewrite Hsk. rewrite Hpost. apply skipn_cons_exact. }
-  rewrite Hsk2. assert (S2 := scan_spec (tl post2) (S (S j))). rewrite (wraps_tl_nil _ Hp2) in S2.
-  destruct (scan_wrap (tl post2) (S (S j))) as [[j3 b3] |]; [| reflexivity].
-  destruct S2 as (p3 & c3 & q3 & H3 & _ & Hc3 & _). exfalso.
-  assert (Hw3 := wraps_tl_nil _ Hp2). rewrite H3, wraps_app in Hw3. unfold wraps in Hw3. simpl in Hw3. rewrite Hc3 in Hw3.
-  destruct (filter_map c_wrap p3); discriminate.
+  assert (Hlen : length cs = S (length pre + length post)) by (subst cs; rewrite app_length; simpl; lia).
+  assert (Hsk : skipn (S (length pre)) cs = post) by (subst cs; apply skipn_cons_exact).
+  rewrite continue_spec by lia. rewrite Hsk. subst cs. rewrite wraps_app, Hpre. unfold wraps at 2. simpl filter_map.
+  rewrite Hc. reflexivity.
 Qed.
 
 (* the send theorem on a combination list *)
-Theorem send_order : forall cs vars arg, g_whop cs = true ->
+Theorem send_order : forall cs vars arg,
   method_call cs (inner_call true false vars arg cs) = s_send vars arg cs.
-Proof. intros. rewrite method_call_spec by assumption. rewrite inner_call_spec. reflexivity. Qed.
+Proof. intros. rewrite method_call_spec. rewrite inner_call_spec. reflexivity. Qed.
 
 (* the bound path (BoundCall / BoundInnerCall, repaired): the same order, provided a vanilla-flavor primary is
    only found in the last combination (BoundInnerCall passes over it) *)
@@ -128,11 +122,11 @@ Definition bound_call (v : version) (vars : nat -> option val) (cs : list combo)
   | Some (i, b) => run_wrap b (continue_whopper (length cs) cs (inner_call true false vars None cs) i)
   | None => inner_call (v_bound v) true vars None cs
   end.
-Theorem bound_send_order : forall cs vars, g_whop cs = true -> vlast cs = true -> bound_call fixed vars cs = s_send vars None cs.
+Theorem bound_send_order : forall cs vars, vlast cs = true -> bound_call fixed vars cs = s_send vars None cs.
 Proof.
-  intros cs vars G V. unfold bound_call.
+  intros cs vars V. unfold bound_call.
   destruct (wrap_from cs 0) as [[i b] |] eqn:E.
-  - rewrite <- send_order by assumption. unfold method_call. rewrite E. reflexivity.
+  - rewrite <- send_order. unfold method_call. rewrite E. reflexivity.
   - unfold s_send. unfold wrap_from in E. simpl in E. assert (S0 := scan_spec cs 0). rewrite E in S0. rewrite S0. simpl nest.
     unfold inner_call. simpl v_bound. cbv iota. rewrite afters_rev.
     assert (F := first_prim_bound cs V). destruct (first_prim true cs) as [b |], (first_primary cs) as [b' |]; try contradiction.
@@ -145,13 +139,14 @@ Qed.
 Definition wc (g id : nat) : combo := {| c_from := g; c_prim := None; c_bef := None; c_aft := None; c_wrap := Some (BUser id true) |}.
 Definition three_whoppers : list combo :=
   [wc 3 33; wc 2 23; wc 1 13; {| c_from := 0; c_prim := Some (BUser 9 false); c_bef := None; c_aft := None; c_wrap := None |}].
-(* continue-whopper gives the second whopper a location one past its own index and Continue advances once
-   more: the whopper of the combination right after it never runs *)
+(* the original continue-whopper gave the second whopper a location one past its own index and Continue advanced
+   once more: the whopper of the combination right after it never ran (repaired by repo_fixes/C10-2.patch) *)
 Lemma third_whopper_skipped :
-  method_call three_whoppers (inner_call true false (fun _ => None) None three_whoppers)
+  method_call_orig three_whoppers (inner_call true false (fun _ => None) None three_whoppers)
     = ([Ev 33; Ev 23; Ev 9; EvEnd 23; EvEnd 33], RVal 9) /\
   s_send (fun _ => None) None three_whoppers = ([Ev 33; Ev 23; Ev 13; Ev 9; EvEnd 13; EvEnd 23; EvEnd 33], RVal 9) /\
-  g_whop three_whoppers = false.
+  method_call three_whoppers (inner_call true false (fun _ => None) None three_whoppers)
+    = s_send (fun _ => None) None three_whoppers.
 Proof. vm_compute. repeat split. Qed.
 Definition ac (g a : nat) : combo := {| c_from := g; c_prim := None; c_bef := None; c_aft := Some (BUser a false); c_wrap := None |}.
 (* the original BoundInnerCall ran the :after daemons first to last *)
@@ -174,7 +169,8 @@ Lemma continue_fuel : forall fuel cs inner current, snd inner <> ROutOfFuel -> 1
 Proof.
   induction fuel as [| k IH]; intros cs inner current Hi Hf Hq; [lia |]. cbn [continue_whopper]. unfold wrap_from.
   destruct (scan_wrap (skipn (S current) cs) (S current)) as [[j b] |] eqn:E; [| exact Hi].
-  apply scan_lt in E. rewrite skipn_length in E. apply run_wrap_fuel. apply IH; [exact Hi | lia | lia].
+  apply scan_lt in E. rewrite skipn_length in E. apply run_wrap_fuel.
+  destruct k as [| k']; [lia |]. apply IH; [exact Hi | lia | lia].
 Qed.
 Theorem send_never_out_of_fuel : forall cs inner, snd inner <> ROutOfFuel -> snd (method_call cs inner) <> ROutOfFuel.
 Proof.
